@@ -370,6 +370,45 @@ func c06SelectGen(g *hx.Gen) {
 			emit([]c06Cfg{a, b}, "a.com", "-")
 		}
 	}
+	// same SNI key (incl. the catch-all aliases), settings differing in exactly one field:
+	// each must be rejected as incompatible (and identical ones accepted)
+	for _, hp := range [][2]string{{"a.com", "a.com"}, {"", "0.0.0.0"}, {"::", ""}, {"0.0.0.0", "::"}, {"*.a.com", "*.a.com"}} {
+		for _, basep := range []int{0, 1, 92, 137} {
+			base := with(c06Profile(basep), hp[0])
+			variants := []c06Cfg{with(c06Profile(basep), hp[1])}
+			v := with(c06Profile(basep), hp[1])
+			v.min = 0x0302
+			variants = append(variants, v)
+			v = with(c06Profile(basep), hp[1])
+			v.max = 0x0303
+			if base.max == 0x0303 {
+				v.max = 0x0304
+			}
+			variants = append(variants, v)
+			v = with(c06Profile(basep), hp[1])
+			v.ciphers = append([]int{0xc02c}, v.ciphers...)
+			variants = append(variants, v)
+			v = with(c06Profile(basep), hp[1])
+			v.curves = append(append([]int{}, v.curves...), 25)
+			variants = append(variants, v)
+			v = with(c06Profile(basep), hp[1])
+			v.alpn = append(append([]string{}, v.alpn...), "spdy/3")
+			variants = append(variants, v)
+			v = with(c06Profile(basep), hp[1])
+			v.clientAuth = (v.clientAuth + 1) % 5
+			variants = append(variants, v)
+			v = with(c06Profile(basep), hp[1])
+			v.clientCerts = append(append([]int{}, v.clientCerts...), 2)
+			variants = append(variants, v)
+			v = with(c06Profile(basep), hp[1])
+			v.disableSNI = true // not a TLS setting: still compatible
+			variants = append(variants, v)
+			for _, vv := range variants {
+				emit([]c06Cfg{base, vv}, "a.com", "-")
+				emit([]c06Cfg{with(c06Profile(3), "c.org"), vv, base}, "x.a.com", "-")
+			}
+		}
+	}
 	// local-address preference for an empty server name
 	for _, h := range []string{"127.0.0.1", "::1", "a.com"} {
 		for _, lip := range []string{"127.0.0.1:443", "[::1]:443", "10.0.0.1:443", "garbage", "-"} {
@@ -435,7 +474,51 @@ func c06DefaultsEval(f []string) (string, []string) {
 		c06U16s(rc.Ciphers), c06U16s(rc.CurvePreferences), b01(rc.PreferServerCipherSuites)}, "\t"), tags
 }
 
+// c06.build  aesni  cfg     (MakeTLSConfig on ONE config WITHOUT SetDefaultTLSParams: buildStandardTLSConfig alone)
+//   out = err | plain | min TAB max TAB ciphers TAB curves TAB prefer TAB clientAuth TAB alpn
+func c06BuildEval(f []string) (string, []string) {
+	if (f[0] == "1") != cpuid.CPU.AesNi() {
+		return "bad-case:aesni field does not describe this CPU", nil
+	}
+	cs := c06ParseCfgs(f[1])
+	rc := c06Real(cs[0])
+	tc, err := caskettls.MakeTLSConfig([]*caskettls.Config{rc})
+	if err != nil {
+		return "err", []string{"build-error"}
+	}
+	if tc == nil {
+		return "plain", []string{"trivial-plain"}
+	}
+	got := caskettls.VerifTLSConfig(rc)
+	if got == nil {
+		return "nil", nil
+	}
+	tags := []string{"built"}
+	if len(cs[0].ciphers) == 0 {
+		tags = append(tags, "ciphers-unset")
+	}
+	return c06ShowTLS(got), tags
+}
+
 func init() {
+	hx.Register(&hx.Stream{ID: "C06", Name: "c06.build",
+		Gen: func(g *hx.Gen) {
+			aes := b01(cpuid.CPU.AesNi())
+			for p := 0; p < c06Profiles; p++ {
+				c := c06Profile(p)
+				c.host = "a.com"
+				g.Case(aes, c.enc())
+				c.ciphers = append([]int{0x5600}, c.ciphers...) // SCSV already first
+				g.Case(aes, c.enc())
+				c.ciphers = append([]int{0xc02b}, c.ciphers...) // SCSV in the middle
+				c.clientCerts = append(c.clientCerts, p%6)
+				g.Case(aes, c.enc())
+			}
+			c := c06Profile(0)
+			c.enabled = false
+			g.Case(aes, c.enc())
+		},
+		Eval: c06BuildEval, Setup: c06Setup, Teardown: c06Teardown})
 	hx.Register(&hx.Stream{ID: "C06", Name: "c06.select", Gen: c06SelectGen, Eval: c06SelectEval, Setup: c06Setup, Teardown: c06Teardown})
 	hx.Register(&hx.Stream{ID: "C06", Name: "c06.defaults",
 		Gen: func(g *hx.Gen) {
